@@ -956,6 +956,34 @@ def corpus_specs() -> list[tuple[str, dict]]:
                                                     'group': [0, 2, None], 'vis': [0, 5, 2], 'node': [0, 1, 1]}, True)))
         out.append((f'ids-sparse-renumbered-{route}', id_map({'route': route, 'ent': [17, 7, None], 'solid': [2, 2, None], 'face': [1000000, 1, None],
                                                              'group': [5, 1000, None], 'vis': [2, 2, None], 'node': [3, 3, None]}, False)))
+    # histories (round 5): parse a map in which a container is EMPTY, add to that container through the public API, export, parse.
+    # One specification per container and per public way of adding; with and without preserve_ids.
+    one = {
+        'brushes': [base_solid()], 'entities': [base_ent(logical_pos='[0 1]')], 'visgroups': [{'name': 'v', 'color': [1.0, 2.0, 3.0], 'children': []}],
+        'groups': [dict(grp[0])], 'cameras': [[[1.0, 2.0, 3.0], [4.0, 5.0, 6.0]]],
+        'cordons': [{'name': 'c', 'mins': [0.0, 0.0, 0.0], 'maxs': [5.0, 5.0, 5.0], 'active': True}],
+    }
+    an_out = {'out': 'OnTrigger', 'targ': 't', 'inp': 'Fire', 'param': '', 'delay': 0.0, 'times': -1, 'comma': True, 'inst_out': None, 'inst_in': None}
+    for pres in (True, False):
+        tag = 'ids-kept' if pres else 'renumbered'
+        for api in ({'brush': 'add_brush', 'ent': 'add_ent', 'vis': 'append'}, {'brush': 'add_brushes', 'ent': 'add_ents', 'vis': 'create'},
+                    {'brush': 'append', 'ent': 'create_ent', 'vis': 'append'}):
+            s = mk(f"history-blank-map-then-add-everything-{api['brush']}-{api['ent']}-{tag}",
+                   history={'emptied': list(U.HIST_CONTAINERS), 'edits': dict(copy.deepcopy(one), ent_edits=[]), 'api': api})
+            s['opts'] = dict(s['opts'], preserve_ids=pres)
+        for c in U.HIST_CONTAINERS:
+            # everything else present, only this container empty in the parsed map
+            edits = {k: [] for k in U.HIST_CONTAINERS}
+            edits[c] = copy.deepcopy(one[c])
+            edits['ent_edits'] = []
+            full = {k: copy.deepcopy(v) for k, v in one.items() if k != c}
+            s = mk(f'history-only-{c}-empty-then-add-{tag}', history={'emptied': [c], 'edits': edits, 'api': {}}, **full, **{c: []})
+            s['opts'] = dict(s['opts'], preserve_ids=pres)
+        s = mk(f'history-bare-entity-then-outputs-fixups-solids-{tag}', entities=[base_ent(), base_ent(hidden=True)],
+               history={'emptied': [], 'api': {}, 'edits': {'ent_edits': [
+                   {'index': 0, 'outputs': [dict(an_out)], 'fixups': [['var', 'val']], 'solids': [base_solid()]},
+                   {'index': 1, 'outputs': [dict(an_out, comma=False)], 'fixups': [['other', 'a "b"']], 'solids': [base_solid(hidden=True)]}]}})
+        s['opts'] = dict(s['opts'], preserve_ids=pres)
     return out
 
 
@@ -983,6 +1011,23 @@ def feature_hist(ck: Ck, spec: dict) -> bool:
         'arbitrary_faces': any(s['kind'] == 'faces' for s in solids),
         'nasty_strings': any(any(c in v for c in '"\\\n') for e in ents for v in list(e['keys'].values()) + list(e['keys'])),
     }
+    hist = spec.get('history')
+    if hist:
+        feats['history'] = True
+        for c in hist.get('emptied', ()):
+            if hist['edits'].get(c):
+                ck.hist('history_added_to_empty_container', c)
+        for c in U.HIST_CONTAINERS:
+            if hist['edits'].get(c) and spec[c]:
+                ck.hist('history_added_to_nonempty_container', c)
+        for ed in hist['edits'].get('ent_edits', ()):
+            if ents:
+                e = ents[ed['index'] % len(ents)]
+                for c in U.HIST_ENT_CONTAINERS:
+                    if ed.get(c):
+                        ck.hist('history_added_to_entity', c + (':was-empty' if not e[c] else ':was-filled'))
+        for k, v in sorted((hist.get('api') or {}).items()):
+            ck.hist('history_api', f'{k}:{v}')
     ids = spec.get('ids') or {}
     feats['id_scheme'] = bool(ids)
     for kind in U.ID_KINDS:
@@ -993,7 +1038,7 @@ def feature_hist(ck: Ck, spec: dict) -> bool:
     for k, v in feats.items():
         if v:
             ck.hist('features', k)
-    return bool(ents or brs or spec['visgroups'] or spec['cameras'] or spec['cordons'])
+    return bool(ents or brs or spec['visgroups'] or spec['cameras'] or spec['cordons'] or hist)
 
 
 def search(ck: Ck) -> None:
@@ -1070,9 +1115,21 @@ def search(ck: Ck) -> None:
         if i == 3:
             ck.sample({'generated_spec_excerpt': json.dumps(spec)[:1500]})
         consider(spec, f'random #{i}')
+    # histories (round 5): build -> export -> parse -> edits through the public API -> export -> parse, starting from parsed maps
+    # in which the containers the API adds to are mostly empty; compared with the same edits on the map built through the API
+    n_hist = 2500 if ck.thorough else ck.budget(100, 700)
+    for i in range(n_hist):
+        spec = U.gen_history_spec(ck.rng)
+        ck.count('generated_histories')
+        if feature_hist(ck, spec):
+            ck.seen(('history', i, len(json.dumps(spec))))
+        if i == 1:
+            ck.sample({'generated_history_excerpt': json.dumps(spec['history'])[:1500]})
+        consider(spec, f'history #{i}')
     for key, (spec, what, det) in found.items():
         ck.violation(key, what, {'spec': spec, 'detail': det,
-                                 'how': 'harness.c06_util.check_spec(spec): build through the public API, export, parse, compare, export again'})
+                                 'how': 'harness.c06_util.check_spec(spec): build through the public API, export, parse, compare, export again; with spec["history"]: '
+                                        'build, export, parse, then add spec["history"]["edits"] to the parsed map through the API, compare with the built map that got the same edits, then round trip'})
     ck.extra['violation_keys'] = sorted(found)
 
 
